@@ -325,7 +325,7 @@ func organismObject(org *genetics.Organism) *ioObject {
 	return o
 }
 
-func populationObject(w *World) *ioObject {
+func populationObject(w *World, bySpecies bool) *ioObject {
 	pop := w.Pop
 	var recs []*GenomeRec
 	h := uint64(len(pop.Organisms))
@@ -336,6 +336,13 @@ func populationObject(w *World) *ioObject {
 	}
 	o := &ioObject{kind: ioPopulation, desc: fmt.Sprintf("population of %d genomes (%s)", len(recs), w.KindName), hash: h}
 	o.write = func(sw *SimWriter) error { return pop.Write(sw) }
+	if bySpecies {
+		// the other writer of whole populations: species by species with comment lines in between, organisms in the
+		// writer's own order; the reader is the same, so the genomes must come back (matched by their unique ids)
+		o.desc += " written species by species"
+		o.hash = Mix(h, 0xb5)
+		o.write = func(sw *SimWriter) error { return pop.WriteBySpecies(sw) }
+	}
 	o.read = func(r *SimReader) (string, error) {
 		got, err := genetics.ReadPopulation(r, w.Opts)
 		if err != nil {
@@ -343,6 +350,24 @@ func populationObject(w *World) *ioObject {
 		}
 		if len(got.Organisms) != len(recs) {
 			return fmt.Sprintf("%d genomes were written, %d were read back", len(recs), len(got.Organisms)), nil
+		}
+		if bySpecies {
+			for i, rec := range recs {
+				n := 0
+				for _, org := range got.Organisms {
+					if org.Genotype.Id != rec.Id {
+						continue
+					}
+					n++
+					if d := genomeDiff(rec, org.Genotype, true); d != "" {
+						return fmt.Sprintf("genome #%d (id %d) of the population: %s", i, rec.Id, d), nil
+					}
+				}
+				if n != 1 {
+					return fmt.Sprintf("genome #%d (id %d) of the population was read back %d times", i, rec.Id, n), nil
+				}
+			}
+			return "", nil
 		}
 		for i, org := range got.Organisms {
 			if d := genomeDiff(recs[i], org.Genotype, true); d != "" {
@@ -942,7 +967,21 @@ func scenarioC15(c *RunCtx) {
 			}
 			c.runObject(organismObject(org), mode, sweep, interesting)
 		case 4:
-			c.runObject(populationObject(w), mode, sweep, interesting)
+			bySpecies := t.Chance("bySpecies", 1, 3)
+			ids := map[int]bool{}
+			for _, o := range w.Pop.Organisms {
+				if ids[o.Genotype.Id] {
+					bySpecies = false // genome ids are what the comparison matches by; their uniqueness is C02's business
+				}
+				ids[o.Genotype.Id] = true
+			}
+			if bySpecies {
+				c.Count("probe.rt.population_by_species")
+				for _, o := range w.Pop.Organisms {
+					o.IsWinner = t.Chance("mark.winner", 1, 6) // the writer adds a comment line for winners
+				}
+			}
+			c.runObject(populationObject(w, bySpecies), mode, sweep, interesting)
 		case 5:
 			nin := 0
 			for _, n := range g.Nodes {
